@@ -51,6 +51,8 @@ def compare_slot(w: World, slot_idx: int, owner: str, trigger: str, *, bind=True
             meta = rc.meta
             if (meta or None) != (mc.meta or None):
                 fail("meta", f"meta of {mc.uid} is {meta!r}, expected {mc.meta!r}")
+            if mc.nid is not None and rc.node_id != mc.nid:
+                fail("node_id", f"node_id of {mc.uid} is not the explicit id it was given")
             if rc.parent is not r_parent:
                 fail("parent", f"parent of {mc.uid} differs")
             if rc.tree is not real_tree:
@@ -134,6 +136,24 @@ def check_index(w: World, slot_idx: int, probe_dids=(), probe_data=()):
                 fail("find_first(data_id=) returns no carrier")
         elif ff is not None:
             fail("find_first(data_id=) returns a node for an absent id")
+
+    # tree[<data_id>] for string ids that are not at the same time node data
+    data_strs = {c.data for c in order if isinstance(c.data, str)}
+    for d, exp in by_did.items():
+        if not isinstance(d, str) or d in data_strs or not d:
+            continue
+        try:
+            one = tree[d]
+        except KeyError:
+            fail(f"tree[data_id] raises KeyError, {len(exp)} carriers")
+        except w.nt.AmbiguousMatchError:
+            if len(exp) < 2:
+                fail(f"tree[data_id] ambiguous, {len(exp)} carriers")
+        else:
+            if len(exp) != 1 or one is not exp[0]:
+                fail(f"tree[data_id] returned a node, {len(exp)} carriers")
+        if not (d in tree):
+            pass  # `in` resolves data, not ids (C09)
 
     # by data object
     seen_data = {}
